@@ -136,9 +136,15 @@ def run(report, db, tier):
     R4 = report.rule('R18.4', 'installation: one encryptor/decryptor pair '
                      'per login lives in the wrappers; cipher keyed by the '
                      'secret that was sent')
-    arms = shared.reactor_arms(react)
+    from ..protocol import Proto
+    P = Proto(db)
+    S = shared.summariser(db, cg)
+    pk = ('sym', react.params[1])
+    arms = {}
+    for p in S.run(react):
+        arms.setdefault(shared.arm_of(p, pk), []).append(p)
     sub = _Sub(report, R4)
-    c10.encryption_arm(sub, db, cg, M, react, arms)
+    c10.encryption_arm(sub, db, M, P, react, arms)
     R5 = report.rule('R18.5', 'wrappers are single pass-through updates '
                      '(continuous stream, any segmentation)')
     shared.wrapper_passthrough(report, R5, db)
